@@ -4,6 +4,7 @@ import XzVerif.Model.ReadLoop
 import XzVerif.Codec.Lzma2
 import XzVerif.Proofs.Ring
 import XzVerif.Proofs.LazyDec
+import XzVerif.Proofs.Fuel
 /-
   C11 — Readers never panic or stall on arbitrary input.
 
@@ -106,5 +107,27 @@ theorem C11_classic_reader_outcomes (cfgCap : Nat) (inp : ByteArray) (l : LSt) (
     (∀ r ∈ readSeq l lens, r.2 ≠ .err .noSpace ∧ r.2 ≠ .err .lenRange ∧ r.2 ≠ .err .panic) ∧
     (∀ i (hi : i < (readSeq l lens).length), ((readSeq l lens)[i]).1.size ≤ lens[i]!) :=
   ⟨LazyDec.never_noSpace cfgCap inp l h lens, fun i hi => ((LazyDec.call_sizes cfgCap inp l h lens).2 i hi).1⟩
+
+/-! ### the reader models end because the data ends or an error occurs — never because a recursion bound was reached
+
+  The batch reader models are structurally recursive over a fuel argument sized from the input length.  For EVERY input
+  the fuel is not exhausted: a chunk / block / stream / padding word consumes at least 1 / 8 / 12 / 4 bytes, an
+  operation of a chunk with a declared size produces at least one byte, and — for the classic stream of unknown size —
+  the range decoder reads at least one byte every 384 decoded bits (no probability exceeds 2017/2048, so every decoded
+  bit shrinks the range at least by that factor, and it is renormalised whenever it falls below 2^24), every operation
+  decoding at least one bit.  This is the model-level content of "every Read call returns": the amount of work is
+  bounded by a linear function of the input length. -/
+
+theorem C11_classic_reader_model_terminates (cfgCap : Nat) (inp : ByteArray) :
+    (Lzma1.read cfgCap inp).status ≠ .err "fuel exhausted" :=
+  Fuel.lzma1_read_fuel cfgCap inp
+
+theorem C11_lzma2_reader_model_terminates (strict : Bool) (cap : Nat) (inp : ByteArray) (pos : Nat) (out : ByteArray) :
+    (Lzma2.decode strict cap inp pos out).2 ≠ .err "fuel exhausted" :=
+  Fuel.lzma2_decode_fuel strict cap inp pos out
+
+theorem C11_xz_reader_model_terminates (strict : Bool) (cfgCap : Nat) (single : Bool) (inp : ByteArray) :
+    (Xz.read strict cfgCap single inp).status ≠ .err "fuel exhausted" :=
+  Fuel.xz_read_fuel strict cfgCap single inp
 
 end Props.C11
